@@ -59,6 +59,8 @@ fn pool() -> Vec<PM> {
         // '#', a non-zero digit d and something other than d digits: not a block, the newline ends the message
         p(b"Z #2\n", Kind::ParseFault),
         p(b"B?;A:K #9\n", Kind::ParseFault),
+        p(b"Z #3001'\n", Kind::ParseFault),
+        p(b"*R;B?\n", Kind::Sound),
         p(b"E?\n", Kind::ExecFault),
         p(b"B\n", Kind::ExecFault),
         p(b"B 300\n", Kind::ExecFault),
